@@ -356,6 +356,10 @@ where
                     let m = KNNClassifier::fit(&x, &y, p).map_err(es)?;
                     Ok(wrap_eq(m, Rc::new(|m: &KNNClassifier<T, D>, q: &[Vec<f64>]| predict_obs::<T>("predict", q, &|x| m.predict(x)))))
                 });
+                if task == Task::Multi {
+                    // also fitted on data with 255..258 classes (class indices around the u8 boundary)
+                    edge(v, &["many-classes"], false);
+                }
             }
             let (alg, w) = (alg.clone(), w.clone());
             subj!(v, format!("knn_regressor[{},{},{},k=3]", dname, an, wn), "knn_regressor", Task::Regression, Domain::Real, domain_min_p, false, |d| {
